@@ -723,6 +723,10 @@ func fUn(name string, a Float) Float {
 			return mkFloat(math.Ceil(a.C))
 		case "sqrt":
 			return mkFloat(math.Sqrt(a.C))
+		case "trunc":
+			return mkFloat(math.Trunc(a.C))
+		case "round":
+			return mkFloat(math.Round(a.C))
 		}
 	}
 	switch name {
@@ -734,6 +738,10 @@ func fUn(name string, a Float) Float {
 		return Float{Sym: "(fp.roundToIntegral RTP " + a.Sym + ")"}
 	case "sqrt":
 		return Float{Sym: "(fp.sqrt RNE " + a.Sym + ")"}
+	case "trunc":
+		return Float{Sym: "(fp.roundToIntegral RTZ " + a.Sym + ")"}
+	case "round":
+		return Float{Sym: "(fp.roundToIntegral RNA " + a.Sym + ")"}
 	}
 	panic("fUn " + name)
 }
